@@ -190,6 +190,8 @@ pub fn stride_cases(f: &mut dyn FnMut(Value)) {
     }
 }
 
+pub const BOM_PIECES: &[&str] = &["\u{feff}", "a", "<", "\n", "&", "b>", "-", "\r", "</script>", "<script>"];
+
 pub const LINE_PIECES: &[&str] = &[
     "\n", "\r", "<", ">", "a", "=", "\"", "&", "-", "!", " ", "/", ";", "#", "'", "doctype", "PUBLIC", "amp", "--", "script", "[CDATA[", "]",
 ];
@@ -247,22 +249,61 @@ pub fn generate(args: &Args, fields: &str, out: &mut Out) {
     let opts = args.get("opts").unwrap_or("").to_string();
     let mut id = 0u64;
     let mut cr = Rng::new(args.num("seed", 1) ^ 0x5555);
+    let pair = args.has("pair");
+    let injects: Vec<String> = if args.has("inject") {
+        vec!["".into(), "x".into(), "\n".into(), "<b>".into(), "</script>".into(), "a\r\nb".into(), "&am".into()]
+    } else {
+        vec![]
+    };
+    let mut group = 0u64;
     let mut emit = |c: Value, out: &mut Out| {
         let text = from_cps(&c["chunks"][0]);
-        for ch in chunkings(&text, &how, &mut cr) {
-            let mut c2 = c.clone();
-            c2["chunks"] = Value::Array(ch.iter().map(|x| cps(x)).collect());
-            let variants: Vec<(bool, bool)> = if opts == "all" {
-                vec![(false, false), (true, false), (false, true), (true, true)]
-            } else {
-                vec![(false, false)]
-            };
-            for (exact, bom) in variants {
-                c2["exact"] = json!(exact);
-                c2["bom"] = json!(bom);
+        group += 1;
+        // option variants: (exact_errors, discard_bom, profile)
+        let variants: Vec<(bool, bool, bool)> = if opts == "all" {
+            vec![(false, false, false), (true, false, false), (false, true, false), (true, true, false), (false, false, true), (true, true, true)]
+        } else if opts == "bom" {
+            vec![(false, true, false)]
+        } else {
+            vec![(false, false, false)]
+        };
+        let inj_list: Vec<Value> = if injects.is_empty() || !text.contains("</script") {
+            vec![json!([])]
+        } else {
+            injects.iter().map(|s| json!([cps(s), cps(s)])).collect()
+        };
+        for inj in &inj_list {
+            if pair {
+                // reference: one piece, default options (same build)
+                let mut c0 = c.clone();
+                c0["inject"] = inj.clone();
+                if opts == "bom" {
+                    c0["bom"] = json!(true);
+                }
                 id += 1;
-                let rr = run_tok(&c2);
-                out.line(&case_line(&c2, id, &rr, fields));
+                let rr = run_tok(&c0);
+                let mut l = case_line(&c0, id, &rr, fields);
+                l["ev"] = json!("ref");
+                l["group"] = json!(group);
+                out.line(&l);
+            }
+            for ch in chunkings(&text, &how, &mut cr) {
+                let mut c2 = c.clone();
+                c2["inject"] = inj.clone();
+                c2["chunks"] = Value::Array(ch.iter().map(|x| cps(x)).collect());
+                for (exact, bom, profile) in &variants {
+                    c2["exact"] = json!(exact);
+                    c2["bom"] = json!(bom);
+                    c2["profile"] = json!(profile);
+                    id += 1;
+                    let rr = run_tok(&c2);
+                    let mut l = case_line(&c2, id, &rr, fields);
+                    if pair {
+                        l["ev"] = json!("var");
+                        l["group"] = json!(group);
+                    }
+                    out.line(&l);
+                }
             }
         }
     };
@@ -270,8 +311,47 @@ pub fn generate(args: &Args, fields: &str, out: &mut Out) {
         "enum" => {
             let k = args.num("k", 2) as usize;
             let np = args.num("pieces", PIECES.len() as u64) as usize;
-            let set: &[&str] = if args.get("pset") == Some("lines") { LINE_PIECES } else { PIECES };
+            let set: &[&str] = match args.get("pset") { Some("lines") => LINE_PIECES, Some("bom") => BOM_PIECES, _ => PIECES };
             enumerate(k, shard, shards, &set[..np.min(set.len())], &mut |c| emit(c, out));
+        },
+        "scaled" => {
+            // pathological lengths: long runs of one construct
+            std::env::set_var("VH_NOTE", "1");
+            let n = args.num("scale", 10000) as usize;
+            let units = ["<", "<a", "<a b", "<a b=", "<a b=c ", "<!--", "-", "--", "<!DOCTYPE ", "&", "&a", "&#", "&#1", "&amp;", "&#x41;",
+                         "\r", "\r\n", "\0", "x", "</", "<![CDATA[", "]", "<script>", "<script><!--<script>", "a=b ", "\"", "'", "<a x=\"", "&not", "é"];
+            let mut all = Vec::new();
+            for u in units {
+                let reps = (n / u.len()).max(1);
+                for pre in ["", "<a ", "<title>", "<script>", "<!--", "<a b=\"", "<!DOCTYPE x PUBLIC \""] {
+                    let mut s = String::from(pre);
+                    for _ in 0..reps {
+                        s.push_str(u);
+                    }
+                    all.push(mk("Data", &json!([]), pre.is_empty(), "std", &s));
+                }
+            }
+            for (i, c) in all.into_iter().enumerate() {
+                if (i as u64) % shards == shard {
+                    // one piece, and 1000-char chunks
+                    id += 1;
+                    let rr = run_tok(&c);
+                    let mut l = case_line(&c, id, &rr, fields);
+                    l["chunks"] = json!([]); // keep the trace small; the replay file has the generator args
+                    l["toks"] = json!([]);
+                    out.line(&l);
+                    let text = from_cps(&c["chunks"][0]);
+                    let chars: Vec<char> = text.chars().collect();
+                    let mut c2 = c.clone();
+                    c2["chunks"] = Value::Array(chars.chunks(997).map(|x| cps(&x.iter().collect::<String>())).collect());
+                    id += 1;
+                    let rr = run_tok(&c2);
+                    let mut l = case_line(&c2, id, &rr, fields);
+                    l["chunks"] = json!([]);
+                    l["toks"] = json!([]);
+                    out.line(&l);
+                }
+            }
         },
         "prefixed" => {
             let k = args.num("k", 2) as usize;
